@@ -1,4 +1,5 @@
 import N0Verif.Proofs.CsvFile
+import N0Verif.Proofs.CsvEnc
 /-!
 # C14 — loading a CSV file reproduces the saved table under every header mode
 
@@ -242,6 +243,44 @@ theorem C14_binary_same (d : Char) (hd : GoodDelim14 d) (eol : Str) (he : Eol eo
       rw [this]
       rfl
 
+/-- **C14 (encoding commutes with writing).**  For every byte encoder that is transparent on
+ASCII and maps other characters to bytes ≥ 0x80 (UTF-8, latin-1, cp1252 …; an arbitrary function
+here, so the codec is not trusted), an ASCII delimiter and LF/CRLF: the encoded bytes of the file
+`save_csv` writes are the file of the table of encoded cells and names. -/
+theorem C14_encoding_commutes (e : Char → Str) (he : AsciiTransparent e) (d : Char)
+    (hda : d.toNat < 128) (eol : Str) (heol : Eol eol) (header : Option (List Str))
+    (rows : List (List Str)) :
+    encS e (fileOf false d eol header rows)
+      = fileOf false d eol (header.map (fun h => h.map (encS e))) (encRows e rows) := by
+  have ha : AsciiDialect d eol := ⟨hda, by
+    intro c hc
+    rcases heol.isEol c hc with h | h <;> subst h <;> decide⟩
+  unfold fileOf withBom
+  simp only [Bool.false_eq_true, if_false]
+  exact (saveCsv_enc e he d eol ha header rows).symm
+
+/-- **C14 (binary read mode yields the same table as encoded bytes).**  Reading the encoded bytes
+of a saved table in binary mode gives the records that text mode gives for the table of encoded
+cells and names — to which the header-mode theorems above apply (the names the caller passes are
+bytes) — for LF and CRLF, under every header option. -/
+theorem C14_binary_encoded (e : Char → Str) (he : AsciiTransparent e) (d : Char)
+    (hd : GoodDelim14 d) (hda : d.toNat < 128) (eol : Str) (heol : Eol eol)
+    (header : Option (List Str)) (rows : List (List Str))
+    (hc : NoBreakRows (allRows header rows))
+    (o : Opts) (hp : Plain o d) (hb : o.binary = false) :
+    records (loadCsv { o with binary := true } (encS e (fileOf false d eol header rows)))
+      = records (loadCsv o
+          (fileOf false d eol (header.map (fun h => h.map (encS e))) (encRows e rows))) := by
+  rw [C14_encoding_commutes e he d hda eol heol header rows]
+  have hall : allRows (header.map (fun h => h.map (encS e))) (encRows e rows)
+      = encRows e (allRows header rows) := by
+    cases header with
+    | none => rfl
+    | some h => cases h <;> simp [allRows, encRows]
+  apply C14_binary_same d hd eol heol _ _ _ o hp hb
+  rw [hall]
+  exact ⟨noBreakRows_enc e he _ hc, noBomRows_enc e he _⟩
+
 /-! ## non-vacuity: concrete tables and options that meet the hypotheses -/
 
 section NonVacuity
@@ -296,6 +335,24 @@ example : loadCsv { containsHeader := .bool true, mandatory := .bool false } [] 
 example : loadCsv { } [] = .error .EOFError := by decide
 example : loadCsv { mandatory := .bool true } ['a', ',', 'a', '\n', '1'] = .error .KeyError := by decide
 example : loadCsv { } ['"', 'a', '"', 'b'] = .error .ValueError := by decide
+
+-- an ASCII-transparent encoder: latin-1-like (identity below 256, `?` above)
+private def enc1 (c : Char) : Str := if c.toNat < 256 then [c] else [Char.ofNat 0xBF]
+example : AsciiTransparent enc1 := by
+  refine ⟨?_, ?_, ?_, ?_⟩
+  · intro c hc; have : c.toNat < 256 := by omega
+    simp [enc1, this]
+  · intro c hc b hb
+    unfold enc1 at hb
+    split at hb
+    · simp at hb; subst hb; exact hc
+    · simp at hb; subst hb; decide
+  · intro c; unfold enc1; split <;> simp
+  · intro c b hb
+    unfold enc1 at hb
+    split at hb
+    · simp at hb; subst hb; assumption
+    · simp at hb; subst hb; decide
 
 end NonVacuity
 
